@@ -105,7 +105,7 @@ def varDeclY (F : Facts) (declT : Option BT) (e : CExpr) : Res (CV × BT) :=
   | none =>
   match declT with
   | none =>
-    (evalY F env none (gtaNodeType e).1).bind fun r =>
+    (evalY F env none (if F.eval.chk.runeLitKeepsType then e else (gtaNodeType e).1)).bind fun r =>
       (assignY F r (defaultTypeY r)).bind materialiseY
   | some t =>
     (evalY F env (some (.t t)) e).bind fun r =>
